@@ -283,7 +283,8 @@ def replay_state(st: dict, out: dict, lazy: bool = False) -> None:
                         V(["C10", "C07"], f"payload of materialization {name!r} holds rows different from its upstream's content", observed=got, expected=want)
             if w.counter is not None:
                 cnt["leaf_starts_total"] = cnt.get("leaf_starts_total", 0) + w.counter.starts
-                bound = _leaf_iterations_needed(rel)
+                n_evals = sum(1 for a in st["evhist"] if a["a"] in ("exec", "process", "reprocess"))
+                bound = _leaf_iterations_needed(rel, n_evals)
                 # when process() simplified a materialization onto the leaf itself, the leaf's own payload
                 # object IS the cached payload: reading the cache then iterates it, which is not a re-evaluation
                 aliased = any(n.payload is w.counter for n in mats.values())
@@ -296,30 +297,37 @@ def replay_state(st: dict, out: dict, lazy: bool = False) -> None:
         proc.cleanup()
 
 
-def _leaf_iterations_needed(rel) -> int:
-    """Leaf iterations when every (shared) materialization's upstream is evaluated once."""
+def _leaf_iterations_needed(rel, n_evals: int = 1) -> int:
+    """Leaf iterations the history may need: the part of the tree below a (shared)
+    materialization is evaluated once over the whole history; whatever lies
+    outside every materialization is legitimately re-evaluated by each of the
+    `n_evals` execute()/process() steps (nothing caches it)."""
     from lsst.daf.relation import BinaryOperationRelation, LeafRelation, MarkerRelation, Materialization, UnaryOperationRelation
 
     seen = set()
 
-    def cost(x):
+    def cost(x, under):
+        """(iterations below materializations, iterations outside them)"""
         match x:
             case LeafRelation():
-                return 1 if x.name == "L" else 0
+                n = 1 if x.name == "L" else 0
+                return (n, 0) if under else (0, n)
             case UnaryOperationRelation(target=target):
-                return cost(target)
+                return cost(target, under)
             case BinaryOperationRelation(lhs=lhs, rhs=rhs):
-                return cost(lhs) + cost(rhs)
+                a, b = cost(lhs, under), cost(rhs, under)
+                return (a[0] + b[0], a[1] + b[1])
             case Materialization(target=target):
                 if id(x) in seen:
-                    return 0
+                    return (0, 0)
                 seen.add(id(x))
-                return cost(target)
+                return cost(target, True)
             case MarkerRelation(target=target):
-                return cost(target)
-        return 0
+                return cost(target, under)
+        return (0, 0)
 
-    return cost(rel)
+    below, outside = cost(rel, False)
+    return below + max(n_evals, 1) * outside
 
 
 def _rows_of_upstream(node, proc):
